@@ -4,7 +4,7 @@
 # rebuilds, runs the existing suite (must be 11 PASS) and the demonstration (must fail); reverts, rebuilds,
 # runs the demonstration again (must pass).  On success copies it to /verif/seeded/<prop>-<x>/ with meta.json.
 prop="$1"; x="$2"
-wt=/tmp/wt/$prop; m=$wt/_mutants/$x
+wt=${WT_BASE:-/tmp/wt}/$prop; m=$wt/_mutants/$x
 cd "$wt" || exit 2
 git checkout -q -- src 2>/dev/null
 git apply "$m/patch.diff" || { echo "$prop/$x: patch does not apply"; exit 1; }
